@@ -2,7 +2,7 @@
 // Obligations O12.1 (safety) and O12.2 (agreement with the grammar) -- see /verif/DESIGN.md, C12.
 //
 // Input: the source text is `\\` + R where R is *every* string of exactly L bytes over the characters
-//   { '\\', '\n', ' ', '\t', 'a', 'é' (2 bytes), '→' (3 bytes) };  one harness per L (contents symbolic, length constant).
+//   { '\\', '\n', '\r', ' ', '\t', 'a', 'é' (2 bytes), '→' (3 bytes) };  one harness per L (contents symbolic, length constant).
 // The logos lexer is put in the state in which the real callback runs: the regex `\\{2}` has matched the first two
 // bytes, so `remainder()` is R.  Nothing is modelled: `lex_multiline_str`, `Lexer::remainder`, `Lexer::bump` are the real ones.
 //
@@ -85,7 +85,7 @@ fn any_text(buf: &mut [u8; MAXL + 2], l: usize) {
         let b: u8 = kani::any();
         match st {
             0 => {
-                if b == b'\\' || b == b'\n' || b == b' ' || b == b'\t' || b == b'a' {
+                if b == b'\\' || b == b'\n' || b == b'\r' || b == b' ' || b == b'\t' || b == b'a' {
                 } else if b == 0xC3 {
                     st = 1; // 'é' = C3 A9
                 } else if b == 0xE2 {
